@@ -118,4 +118,55 @@ theorem pack_closed_instance (big128 : Bool) (J : ℕ) (hJ : J < 2 ^ 1) :
     have := le_of_mul_le_mul_left this (by positivity)
     linarith
 
+/-! ### the slot-reading contract (`PackCoeffContract` / `WordMachine.pack_spec` of `Lemmas/NoiseAlg.lean`, slice bin-fhe) -/
+
+/-- the centred representative modulo `Q` -/
+def cmod (x Q : ℤ) : ℤ := (x + Q / 2) % Q - Q / 2
+
+theorem cmod_add_mul (v Q q : ℤ) (hQ : 0 < Q) (h1 : -(Q / 2) ≤ v) (h2 : v < Q - Q / 2) : cmod (v + Q * q) Q = v := by
+  unfold cmod
+  have e : v + Q * q + Q / 2 = (v + Q / 2) + Q * q := by ring
+  rw [e, Int.add_mul_emod_self_left, Int.emod_eq_of_lt (by linarith) (by linarith)]
+  ring
+
+/-- slot `J` of a packed ciphertext, as a decryptor reads it: coefficient `J` of the phase value, centred modulo `2^M` -/
+def slotRead (b S N : ℕ) (sk : List Poly) (res : Ks.Ct) (J : ℕ) : ℤ := cmod ((valP b N (phase sk res)).getD J 0) (2 ^ (b * S))
+
+/-- **`glwe_pack_slot_contract`** — the statement `|slot (pack cs) J − c0 (ph (cs J))| ≤ Bp` of bin-fhe's `PackCoeffContract`
+(`WordMachine.pack_spec`), for the EXECUTED `glwe_pack`: with `slot = slotRead` (coefficient `J` of the phase, centred mod `2^M`),
+`c0 ∘ ph = slotU` (constant coefficient of the phase of slot `J`'s ciphertext) and `Bp` any integer with `2c·Bp ≥` the noise sum of
+`glwe_pack_decrypts_noise`, provided message + noise do not wrap (`|u_J| + Bp < 2^(M−1)`).  Every slot `J ∈ G·ℕ`, every subset of present
+slots; the other coefficients read `|slot| ≤ Bp`. -/
+theorem glwe_pack_slot_contract (big128 : Bool) (K : ℕ) (hK : K + 1 ≤ 64) (keys : List Ks.Key) (sk : List Poly) (b S Sk rk : ℕ)
+    (hb62 : b ≤ 62) (H : ℤ) (hH : 2 ^ b - 1 ≤ H) (hh2 : NormL.HeadRoom 64 b 0 (H + H)) (BA : ℕ → ℤ) (hBA : ∀ i, 0 ≤ BA i)
+    (hsk : Ks.AllLen (2 ^ K) sk) (hkeys : PackKeys big128 K b S Sk rk sk keys BA)
+    (a : Ks.SlotMap) (logGapOut : ℕ) (res : Ks.Ct) (ha : ∀ j, OptInv (2 ^ K) b S rk H (a.get j))
+    (h : Ks.pack big128 (2 ^ K) b keys b S a logGapOut = .ok res) (Bp : ℤ) (hM : 1 ≤ b * S)
+    (hBp : ∑ i ∈ Finset.range (K - logGapOut), 2 ^ (K - logGapOut - 1 - i) * mergeBeta b S Sk rk sk (BA i)
+          + 2 * ∑ t ∈ Finset.range (K - (K - logGapOut)),
+              (cc b S Sk * (2 * (1 + snorm (min rk sk.length) sk)) + BA (K - logGapOut + t)) ≤ (2 * cc b S Sk) * Bp)
+    (J : ℕ) (hJ : J < 2 ^ K)
+    (hfit : |(if J % 2 ^ (K - (K - logGapOut)) = 0 then slotU b (2 ^ K) sk a J else 0)| + Bp < 2 ^ (b * S - 1)) :
+    |slotRead b S (2 ^ K) sk res J - (if J % 2 ^ (K - (K - logGapOut)) = 0 then slotU b (2 ^ K) sk a J else 0)| ≤ Bp := by
+  obtain ⟨e, q, he, hb⟩ := glwe_pack_decrypts_noise big128 K hK keys sk b S Sk rk hb62 H hH hh2 BA hBA hsk hkeys a logGapOut res ha h J hJ
+  generalize (if J % 2 ^ (K - (K - logGapOut)) = 0 then slotU b (2 ^ K) sk a J else 0) = u at *
+  have hc := cc_pos b S Sk
+  have heB : |e| ≤ Bp := by
+    have : (2 * cc b S Sk) * |e| ≤ (2 * cc b S Sk) * Bp := hb.trans hBp
+    exact le_of_mul_le_mul_left this (by linarith)
+  have hQ : (2 : ℤ) ^ (b * S) = 2 * 2 ^ (b * S - 1) := by
+    rw [← pow_succ']; congr 1; omega
+  have hhalf : (2 : ℤ) ^ (b * S) / 2 = 2 ^ (b * S - 1) := by rw [hQ]; simp
+  have hue : |u + e| < 2 ^ (b * S - 1) := lt_of_le_of_lt (abs_add_le u e) (by linarith)
+  have hlt := abs_lt.mp hue
+  unfold slotRead
+  rw [he, cmod_add_mul (u + e) (2 ^ (b * S)) q (by positivity) (by rw [hhalf]; linarith) (by rw [hhalf, hQ]; linarith)]
+  simpa using heB
+
+/-- on the closed instance: both slots are read within `38` units -/
+example (J : ℕ) (hJ : J < 2 ^ 1) :
+    |slotRead 4 2 (2 ^ 1) trSk pkOut J - slotU 4 (2 ^ 1) trSk [(0, trCt), (1, pkB)] J| ≤ 38 := by
+  have hJ' : J = 0 ∨ J = 1 := by omega
+  rcases hJ' with rfl | rfl <;> decide +kernel
+
 end KsDec
